@@ -325,7 +325,21 @@ def misc_text_case(r):
         _code, words = read_words("G1 " + t)
         exp = ",".join("%s:%s" % (l, impl.fnum(v)) for (l, v, _t) in words) or "-"
         steps.append(Step("specwords " + impl.hexs(t), 1, eq(["ok " + exp]), label="specwords %r" % t))
-    elif k < 0.7:
+    elif k < 0.73:
+        # ExcludeRegionPlugin._splitGcodeScript (enter / exit scripts from the settings)
+        import types
+        import octoprint_excluderegion as pkg
+        if r.random() < 0.1:
+            t = None
+        else:
+            t = "".join(rand_line(r, 0.8) + r.choice(["\n", "\r\n", "\r", "", "\n\n", " \n"])
+                        for _ in range(r.randint(0, 4)))
+        fake = types.SimpleNamespace(gcodeHandlers=types.SimpleNamespace(gcodeParser=impl.GcodeParser()))
+        got = pkg.ExcludeRegionPlugin._splitGcodeScript(fake, t)     # pylint: disable=protected-access
+        exp = "ok N" if got is None else "ok " + (",".join(impl.hexs(x) for x in got) or "-")
+        steps.append(Step("psplit " + ("N" if t is None else "S" + impl.hexs(t)), 1, eq([exp]),
+                          label="split %r" % t))
+    elif k < 0.75:
         t = rand_line(r, 0.3)
         steps.append(Step("checksum " + impl.hexs(t), 1,
                           eq(["ok %d" % impl.GcodeParser.computeChecksum(t)]), label="checksum"))
